@@ -399,3 +399,152 @@ Proof.
       * apply Z.leb_le in E. rewrite Hmx. cbn [andb negb]. apply Hword. lia.
       * rewrite andb_false_r. reflexivity.
 Qed.
+
+(* ---------- the tokenizer of numeric texts is faithful: the components [classify] returns are the
+   pieces of the text, in order (so [text_denotes]-style statements phrased through [classify] speak
+   about the text itself) ---------- *)
+Lemma byte_is_true k b : byte_is k b = true -> b = n2b k.
+Proof. unfold byte_is. intros Hk. apply N.eqb_eq in Hk. rewrite <- Hk, n2b_b2n. reflexivity. Qed.
+
+Lemma span_digits_spec l d r : span_digits l = (d, r) -> l = d ++ r /\ forallb Numeric.is_digit d = true.
+Proof.
+  revert d r. induction l as [|b t IH]; intros d r Hs; cbn [span_digits] in Hs.
+  - injection Hs as <- <-. split; reflexivity.
+  - destruct (Numeric.is_digit b) eqn:Eb.
+    + destruct (span_digits t) as [d' t'] eqn:Et. injection Hs as <- <-.
+      destruct (IH d' t' eq_refl) as [-> Hd]. split; [reflexivity|]. cbn [forallb]. rewrite Eb, Hd. reflexivity.
+    + injection Hs as <- <-. split; reflexivity.
+Qed.
+
+(* the sign in front of a text: nothing, '+' or '-' *)
+Definition is_sign (sgn : bytes) (neg : bool) : Prop :=
+  (sgn = [] /\ neg = false) \/ (sgn = [x2b] /\ neg = false) \/ (sgn = [x2d] /\ neg = true).
+
+Lemma scan_exp_spec r eneg ed :
+  scan_exp r = Some (eneg, ed) ->
+  forallb Numeric.is_digit ed = true /\
+  ((r = [] /\ ed = [] /\ eneg = false) \/
+   (exists e es, r = e :: es ++ ed /\ (e = x65 \/ e = x45) /\ is_sign es eneg /\ ed <> [])).
+Proof.
+  unfold scan_exp. destruct r as [|e r1]. { intros Hs; injection Hs as <- <-. split; [reflexivity|]. left. repeat split. }
+  destruct (byte_is 101 e || byte_is 69 e) eqn:Ee; [|discriminate].
+  assert (He : e = x65 \/ e = x45).
+  { apply orb_true_iff in Ee. destruct Ee as [Ee|Ee]; apply byte_is_true in Ee; [left|right]; exact Ee. }
+  destruct r1 as [|s r2].
+  - cbn. discriminate.
+  - destruct (byte_is 45 s) eqn:E45.
+    + apply byte_is_true in E45. change (n2b 45) with x2d in E45. subst s.
+      destruct (span_digits r2) as [d t] eqn:Es. destruct d as [|d0 d']; [discriminate|]. destruct t; [|discriminate].
+      intros Hx; injection Hx as <- <-. destruct (span_digits_spec _ _ _ Es) as [Hr Hd]. rewrite app_nil_r in Hr.
+      split; [exact Hd|]. right. exists e, [x2d]. subst r2. repeat split; try assumption; try discriminate.
+      right; right; split; reflexivity.
+    + destruct (byte_is 43 s) eqn:E43.
+      * apply byte_is_true in E43. change (n2b 43) with x2b in E43. subst s.
+        destruct (span_digits r2) as [d t] eqn:Es. destruct d as [|d0 d']; [discriminate|]. destruct t; [|discriminate].
+        intros Hx; injection Hx as <- <-. destruct (span_digits_spec _ _ _ Es) as [Hr Hd]. rewrite app_nil_r in Hr.
+        split; [exact Hd|]. right. exists e, [x2b]. subst r2. repeat split; try assumption; try discriminate.
+        right; left; split; reflexivity.
+      * destruct (span_digits (s :: r2)) as [d t] eqn:Es. destruct d as [|d0 d']; [discriminate|]. destruct t; [|discriminate].
+        intros Hx; injection Hx as <- <-. destruct (span_digits_spec _ _ _ Es) as [Hr Hd]. rewrite app_nil_r in Hr.
+        split; [exact Hd|]. right. exists e, []. rewrite Hr. repeat split; try assumption; try discriminate.
+        left; split; reflexivity.
+Qed.
+
+Definition frac_text (fp : bytes) : bytes := match fp with [] => [] | _ => x2e :: fp end.
+
+Lemma classify_unsigned_spec neg r c :
+  classify_unsigned neg r = c ->
+  match c with
+  | CDec n ds => n = neg /\ r = ds /\ forallb Numeric.is_digit ds = true
+  | CHex n ds => n = neg /\ (exists x, r = x30 :: x :: ds /\ (x = x78 \/ x = x58)) /\ forallb is_hex ds = true /\ ds <> []
+  | CSci n ip fp eneg ed =>
+      n = neg /\ forallb Numeric.is_digit ip = true /\ forallb Numeric.is_digit fp = true /\
+      forallb Numeric.is_digit ed = true /\
+      exists expo, r = ip ++ frac_text fp ++ expo /\
+        ((expo = [] /\ ed = [] /\ fp <> []) \/
+         (exists e es, expo = e :: es ++ ed /\ (e = x65 \/ e = x45) /\ is_sign es eneg /\ ed <> []))
+  | COther => True
+  end.
+Proof.
+  unfold classify_unsigned.
+  destruct (match r with
+            | z :: x :: h => if byte_is 48 z && (byte_is 120 x || byte_is 88 x)
+                             then Some (match h with _ :: _ => if forallb is_hex h then CHex neg h else COther | [] => COther end)
+                             else None
+            | _ => None end) as [c0|] eqn:Ehex.
+  - intros <-. destruct r as [|z [|x h]]; try discriminate.
+    destruct (byte_is 48 z && (byte_is 120 x || byte_is 88 x)) eqn:Ep; [|discriminate].
+    injection Ehex as <-. destruct h as [|h0 h']; [exact I|].
+    destruct (forallb is_hex (h0 :: h')) eqn:Eh; [|exact I].
+    apply andb_true_iff in Ep. destruct Ep as [Ez Ex]. apply byte_is_true in Ez. change (n2b 48) with x30 in Ez.
+    repeat split; try assumption; try discriminate. exists x. subst z. split; [reflexivity|].
+    apply orb_true_iff in Ex. destruct Ex as [Ex|Ex]; apply byte_is_true in Ex; [left|right]; exact Ex.
+  - clear Ehex. destruct (span_digits r) as [ip r1] eqn:Es. destruct (span_digits_spec _ _ _ Es) as [Hr Hip].
+    destruct (negb (int_part_ok ip)); [intros <-; exact I|].
+    destruct r1 as [|c1 r2].
+    + intros <-. rewrite app_nil_r in Hr. repeat split; assumption.
+    + destruct (byte_is 46 c1) eqn:Edot.
+      * apply byte_is_true in Edot. change (n2b 46) with x2e in Edot. subst c1.
+        destruct (span_digits r2) as [fp r3] eqn:Ef. destruct (span_digits_spec _ _ _ Ef) as [Hr2 Hfp].
+        destruct fp as [|f0 f']; [intros <-; exact I|].
+        destruct (scan_exp r3) as [[eneg ed]|] eqn:Ee; [|intros <-; exact I].
+        intros <-. destruct (scan_exp_spec _ _ _ Ee) as [Hed Hex].
+        repeat split; try assumption. exists r3. split; [rewrite Hr, Hr2; reflexivity|].
+        destruct Hex as [[-> [-> _]]|Hex]; [left; repeat split; discriminate|right; exact Hex].
+      * destruct (scan_exp (c1 :: r2)) as [[eneg ed]|] eqn:Ee; [|intros <-; exact I].
+        destruct ed as [|e0 e']; [intros <-; exact I|].
+        intros <-. destruct (scan_exp_spec _ _ _ Ee) as [Hed Hex].
+        repeat split; try assumption; try reflexivity. exists (c1 :: r2). split; [rewrite Hr; reflexivity|].
+        destruct Hex as [[Hn _]|Hex]; [discriminate|right; exact Hex].
+Qed.
+
+(* the whole text: optional sign, then the unsigned part *)
+Theorem classify_spec t :
+  match classify t with
+  | COther => True
+  | c => exists sgn r, t = sgn ++ r /\
+           is_sign sgn (match c with CDec n _ | CHex n _ | CSci n _ _ _ _ => n | COther => false end) /\
+           classify_unsigned (match c with CDec n _ | CHex n _ | CSci n _ _ _ _ => n | COther => false end) r = c
+  end.
+Proof.
+  unfold classify. destruct t as [|b r]; [exact I|].
+  destruct (byte_is 45 b) eqn:E45.
+  - apply byte_is_true in E45. change (n2b 45) with x2d in E45. subst b.
+    pose proof (classify_unsigned_spec true r _ eq_refl) as Hs.
+    destruct (classify_unsigned true r) eqn:Ec; try exact I;
+      exists [x2d], r; (split; [reflexivity|]);
+      (split; [right; right; split; [reflexivity|]; (destruct Hs as [-> _]; reflexivity) | destruct Hs as [-> _]; exact Ec]).
+  - destruct (byte_is 43 b) eqn:E43.
+    + apply byte_is_true in E43. change (n2b 43) with x2b in E43. subst b.
+      pose proof (classify_unsigned_spec false r _ eq_refl) as Hs.
+      destruct (classify_unsigned false r) eqn:Ec; try exact I;
+        exists [x2b], r; (split; [reflexivity|]);
+        (split; [right; left; split; [reflexivity|]; (destruct Hs as [-> _]; reflexivity) | destruct Hs as [-> _]; exact Ec]).
+    + pose proof (classify_unsigned_spec false (b :: r) _ eq_refl) as Hs.
+      destruct (classify_unsigned false (b :: r)) eqn:Ec; try exact I;
+        exists [], (b :: r); (split; [reflexivity|]);
+        (split; [left; split; [reflexivity|]; (destruct Hs as [-> _]; reflexivity) | destruct Hs as [-> _]; exact Ec]).
+Qed.
+
+Theorem classify_faithful t :
+  (forall neg ds, classify t = CDec neg ds ->
+     exists sgn, t = sgn ++ ds /\ is_sign sgn neg /\ forallb Numeric.is_digit ds = true) /\
+  (forall neg ds, classify t = CHex neg ds ->
+     exists sgn x, t = sgn ++ x30 :: x :: ds /\ is_sign sgn neg /\ (x = x78 \/ x = x58) /\
+                   forallb is_hex ds = true /\ ds <> []) /\
+  (forall neg ip fp eneg ed, classify t = CSci neg ip fp eneg ed ->
+     exists sgn expo, t = sgn ++ ip ++ frac_text fp ++ expo /\ is_sign sgn neg /\
+       forallb Numeric.is_digit ip = true /\ forallb Numeric.is_digit fp = true /\
+       forallb Numeric.is_digit ed = true /\
+       ((expo = [] /\ ed = [] /\ fp <> []) \/
+        (exists e es, expo = e :: es ++ ed /\ (e = x65 \/ e = x45) /\ is_sign es eneg /\ ed <> []))).
+Proof.
+  pose proof (classify_spec t) as Hs. repeat split.
+  - intros neg ds Hc. rewrite Hc in Hs. destruct Hs as [sgn [r [-> [Hsg Hu]]]].
+    destruct (classify_unsigned_spec _ _ _ Hu) as [_ [-> Hd]]. exists sgn. repeat split; assumption.
+  - intros neg ds Hc. rewrite Hc in Hs. destruct Hs as [sgn [r [-> [Hsg Hu]]]].
+    destruct (classify_unsigned_spec _ _ _ Hu) as [_ [[x [-> Hx]] [Hh Hne]]]. exists sgn, x. repeat split; assumption.
+  - intros neg ip fp eneg ed Hc. rewrite Hc in Hs. destruct Hs as [sgn [r [-> [Hsg Hu]]]].
+    destruct (classify_unsigned_spec _ _ _ Hu) as [_ [Hip [Hfp [Hed [expo [-> Hex]]]]]].
+    exists sgn, expo. repeat split; assumption.
+Qed.
